@@ -27,6 +27,10 @@ type Result struct {
 	NonTrivial bool
 	Trace      string
 	Sample     string
+	// concurrent mode only
+	Schedule []int
+	Tainted  bool
+	States   []string
 }
 
 // family is one underlying store (MemDB or GoLevelDB) with the views
